@@ -649,6 +649,11 @@ where
             "delay-unknown" => Ok(matches!(s.set_input_delay(99, 2), Err(GgrsError::InvalidRequest { .. }))),
             "stats-local" => Ok(locals.first().is_none_or(|h| matches!(s.network_stats(*h), Err(GgrsError::InvalidRequest { .. })))),
             "stats-unknown" => Ok(matches!(s.network_stats(99), Err(GgrsError::InvalidRequest { .. }))),
+            // `disc-again:<h>`: the scenario has already dropped a player at the address of handle h
+            k if k.starts_with("disc-again:") => match k["disc-again:".len()..].parse::<usize>() {
+                Ok(h) => Ok(matches!(s.disconnect_player(h), Err(GgrsError::InvalidRequest { .. }))),
+                Err(_) => Err(format!("bad misuse {kind}")),
+            },
             _ => Err(format!("unknown misuse {kind}")),
         });
         match res {
